@@ -178,10 +178,10 @@ def eos_negative_controls(ctx, events):
 
 
 # ----------------------------------------------------------------------------- QHA part
-QHA_INV = ["TypeOK", "InvIndexSafety", "InvRefuses", "InvCompletes", "InvFailedFitReported", "InvLength",
+QHA_INV = ["TypeOK", "InvIndexSafety", "InvCompletes", "InvFailedFitReported", "InvLength",
            "InvPerTemperatureElectronic", "InvPhononUnit", "InvPressureSign", "InvRecovery", "InvBulkModulusObject",
            "InvThermalExpansion", "InvHeatCapacity", "InvHeatCapacityPolyfit", "InvGruneisen", "InvFiles", "InvUnits"]
-QHA_IMPL = ["ImplExact", "ImplRefuses", "ImplCompletes", "ImplFailedFitReported", "ImplFitStart", "ImplLength",
+QHA_IMPL = ["ImplExact", "ImplCompletes", "ImplFailedFitReported", "ImplFitStart", "ImplLength",
             "ImplPerTemperatureElectronic", "ImplPhononUnit", "ImplPressureSign", "ImplRecoverVolume",
             "ImplRecoverGibbs", "ImplRecoverBulk", "ImplBulkModulusObject", "ImplThermalExpansion", "ImplHeatCapacity",
             "ImplHeatCapacityPolyfit", "ImplGruneisen", "ImplFiles"]
@@ -474,10 +474,10 @@ def run_trace(ctx, events, invs, cont):
                    requirement=False, extra_args=(("-continue",) if cont else ()), workers=min(8, tlcmod.NCPU))
 
 
-def failed_clauses(stdout):
+def failed_clauses(stdout, tag="FAILED"):
     out = {}
     for v in tlcmod.printed_values(stdout):
-        if isinstance(v, list) and len(v) == 3 and v[0] == "FAILED":
+        if isinstance(v, list) and len(v) == 3 and v[0] == tag:
             out[v[1]] = sorted(v[2])
     return out
 
@@ -518,12 +518,6 @@ def corrupt(e, what):
         o["starts"] = ["own", "prev"]
     elif what == "failedfit":  # the environment let the second fit fail, the result pretends nothing happened
         c["inp"]["fitplan"][1] = "nonconv"
-    elif what == "staleparams":  # a TypeError at the second temperature, whose row is still returned
-        c["inp"]["fitplan"][1] = "typeerror"
-    elif what == "descending":  # a result although the temperatures are not ascending
-        c["inp"]["T"] = list(reversed(c["inp"]["T"]))
-    elif what == "fewvolumes":
-        c["inp"]["nvd"] = 3
     return c
 
 
@@ -531,8 +525,7 @@ CONTROLS = dict(vol="ImplRecoverVolume", gibbs="ImplRecoverGibbs", bulk="ImplRec
                 el="ImplPerTemperatureElectronic", pvsign="ImplPressureSign", phunit="ImplPhononUnit",
                 len="ImplLength", beta="ImplThermalExpansion", cp="ImplHeatCapacity", exact="ImplExact",
                 bmpar="ImplBulkModulusObject", file="ImplFiles", filefmt="ImplFiles", start="ImplFitStart",
-                failedfit="ImplFailedFitReported", staleparams="ImplFailedFitReported", descending="ImplRefuses",
-                fewvolumes="ImplRefuses")
+                failedfit="ImplFailedFitReported")
 
 
 def negative_controls(ctx, events):
@@ -582,6 +575,7 @@ def qha_part(ctx, forms, EV, NA):
     skipped = []
     first_ok_events = None
     clause_fail = {}   # clause -> list of case ids
+    observed = {}      # observation outside the statement of C20 -> list of case ids
     for b0 in range(0, len(cases), batch):
         chunk = cases[b0:b0 + batch]
         # the real code first: what every fit call did (scipy status, exception) is the environment's
@@ -631,13 +625,20 @@ def qha_part(ctx, forms, EV, NA):
         raws.clear()
         n_events += len(events)
         ev_by_id = {e["_case"].id: e for e in events}
-        r2 = run_trace(ctx, events, QHA_INV + QHA_IMPL + QHA_CONF, False)
+        r2 = run_trace(ctx, events, ["Observe"] + QHA_INV + QHA_IMPL + QHA_CONF, False)
+        for cid, names in failed_clauses(r2.stdout, "OBSERVED").items():
+            for n in names:
+                observed.setdefault(n, []).append(cid)
         if first_ok_events is None:
             first_ok_events = events
         if r2.violated:
             # complete list of failing events (compact), then the official verdict with traces on a few
-            r3 = run_trace(ctx, events, ["Report"], False)
+            r3 = run_trace(ctx, events, ["Observe", "Report"], False)
             failing = failed_clauses(r3.stdout)
+            for cid, names in failed_clauses(r3.stdout, "OBSERVED").items():
+                for n in names:
+                    if cid not in observed.setdefault(n, []):
+                        observed[n].append(cid)
             per_clause = {}
             for cid, names in failing.items():
                 for n in names:
@@ -685,7 +686,7 @@ def qha_part(ctx, forms, EV, NA):
         else:
             # replay direction: any difference from the expected tables must have been rejected above
             for e in events:
-                if e["_mism"]:
+                if e["_mism"] and e["_exp"].get("status") != "unspecified":
                     ctx.violation("qha:replay", "C20: real tables differ from the specification's",
                                   dict(case=case_detail(e["_case"]), mismatches=e["_mism"][:10]))
                     break
@@ -698,7 +699,20 @@ def qha_part(ctx, forms, EV, NA):
         ctx.violation("qha:fit-fails", "scipy fit inside PhonopyQHA fails on exact EOS data in %d of %d cases"
                       % (len(failed), len(main_real)), case_detail(by_id[failed[0]]))
     ctx.extra["qha_failing_clauses"] = {k: len(v) for k, v in sorted(clause_fail.items())}
-    if first_ok_events and not any(v["key"].startswith("qha:") and ":F" not in v["key"] for v in ctx.violations):
+    what = dict(ObsRefuses="temperatures not strictly ascending or fewer than 4 distinct volumes are NOT refused: a result "
+                           "is returned (descending + t_max returns the temperatures above t_max; repeated temperatures "
+                           "give rank-deficient parabolas; < 4 distinct volumes an underdetermined fit)",
+                ObsTypeErrorNotReplaced="a fit that raises TypeError (fault injection; not reachable with the pinned "
+                                        "scipy) keeps its temperature in the result with the PREVIOUS temperature's "
+                                        "parameters (first temperature: UnboundLocalError)")
+    ctx.extra["observed_outside_C20"] = {
+        k: dict(what=what.get(k, k), inputs=len(set(v)),
+                families=sorted(set(by_id[c].family for c in v)),
+                example=case_detail(by_id[sorted(v)[0]]) if v else None,
+                recorded_in=dict(ObsRefuses="fixes/c20-temperature-order.md, fixes/c20-degenerate-volumes.md",
+                                 ObsTypeErrorNotReplaced="fixes/c20-stale-fit-parameters.md").get(k))
+        for k, v in sorted(observed.items())}
+    if first_ok_events and not any(v["key"].startswith("qha:") for v in ctx.violations):
         negative_controls(ctx, first_ok_events)
     ctx.traces += n_events
     ctx.extra["qha_events"] = n_events
@@ -751,7 +765,8 @@ CHECK_DEADLOCK FALSE
                "pressures %s; FailInputs: uniform grids with 2..%d points, every assignment of fit outcomes "
                "(ok/nonconv/RuntimeError/TypeError) to the temperatures and to the BulkModulus fit; DegenerateInputs: "
                "every temperature sequence of length 1..%d over {0,10,20}, %s distinct volumes, int/float input, "
-               "electronic (T,V) rows = temperatures -1/0/+1"
+               "electronic (T,V) rows = temperatures -1/0/+1 (unordered temperatures / < 4 distinct volumes: machine "
+               "status 'unspecified', outside the statement)"
                % (maxn, "none/2" if ctx.quick else "none/0/2/-3/2", failn, deglen,
                   "3/5" if ctx.quick else "1/3/5/7"),
         states=r.distinct, exhaustive=True)
